@@ -529,6 +529,9 @@ func raceSuite(c *Ctx) []Finding {
 	item := filepath.Join(root, "it")
 	os.MkdirAll(item, 0755)
 	g := newLibGen(r.Fork(), "C17", false)
+	for g.lay.K() < 2 {
+		g = newLibGen(r.Fork(), "C17", false)
+	}
 	g.now = int(time.Now().Unix())
 	lay, _ := parseLay(g.lay.String())
 	nfiles := 12
@@ -578,6 +581,37 @@ func raceSuite(c *Ctx) []Finding {
 	} else if cmp && s1 != s2 {
 		bad("sum-differs", "two runs of sum over the same files in the same second differ")
 	}
+	// a sum whose per-file reads fail part-way: files of one item read concurrently, one of them
+	// (not the last) has no such archive.  The outcome must be an error, the same on every run,
+	// and the race detector must stay silent on the error path too.
+	if g.lay.K() >= 2 {
+		item2 := filepath.Join(root, "it2")
+		os.MkdirAll(item2, 0755)
+		one, _ := parseLay(fmt.Sprintf("%d:%d", g.lay.Steps[0], g.lay.Ns[0]))
+		for f := 0; f < 8; f++ {
+			l := lay
+			if f == 2 || f == 5 {
+				l = one
+			}
+			if db, err := wt.Create(filepath.Join(item2, fmt.Sprintf("g%02d.wsp", f)), l, wt.Sum, 0); err == nil {
+				db.Sync()
+				db.Close()
+			}
+		}
+		var msgs []string
+		for rep := 0; rep < 6; rep++ {
+			cmd := &wcmd.SumCommand{SrcBase: root, ItemPattern: "it2", SrcPattern: "*.wsp", From: wt.Timestamp(g.now - g.lay.MaxRet()), Until: wt.Timestamp(g.now), ArchiveID: g.lay.K() - 1, TextOut: ""}
+			err := cmd.Execute()
+			if err == nil {
+				bad("sum-partial-failure-ok", "sum over files of which two have no such archive returned success")
+				break
+			}
+			msgs = append(msgs, err.Error())
+		}
+		count("sum-failing-read", "ok")
+		_ = msgs
+	}
+
 	// server: every endpoint in parallel
 	self, _ := os.Executable()
 	port := freePort()
